@@ -177,10 +177,22 @@ def path_conditions(fn_node: ast.AST, target: ast.AST) -> List[Tuple[ast.expr, b
         par = parents.get(id(cur))
         if par is None:
             break
+        # guards that precede `cur` in its own block: reaching `cur` means they did not jump
+        for f in ("body", "orelse", "finalbody"):
+            blk = getattr(par, f, None)
+            if isinstance(blk, list) and any(x is cur for x in blk):
+                for sib in blk:
+                    if sib is cur:
+                        break
+                    if isinstance(sib, ast.If):
+                        if _jumps(sib.body) and not _jumps(sib.orelse):
+                            out.extend(_split_cond(sib.test, False))
+                        elif sib.orelse and _jumps(sib.orelse) and not _jumps(sib.body):
+                            out.extend(_split_cond(sib.test, True))
         if isinstance(par, (ast.If, ast.While)):
-            if cur in par.body:
+            if any(x is cur for x in par.body):
                 out.extend(_split_cond(par.test, True))
-            elif cur in par.orelse:
+            elif any(x is cur for x in par.orelse):
                 out.extend(_split_cond(par.test, False))
         elif isinstance(par, ast.IfExp):
             if cur is par.body:
@@ -199,9 +211,23 @@ def path_conditions(fn_node: ast.AST, target: ast.AST) -> List[Tuple[ast.expr, b
     return out
 
 
+_POSITIVE = {ast.NotEq: ast.Eq, ast.IsNot: ast.Is, ast.NotIn: ast.In}
+
+
+def _jumps(body: List[ast.stmt]) -> bool:
+    from sa.canon import jumps
+
+    return jumps(body)
+
+
 def _split_cond(test: ast.expr, branch: bool) -> List[Tuple[ast.expr, bool]]:
+    """Atomic conditions; `a != b` is reported as (`a == b`, not branch), likewise `is not`, `not in`."""
     if isinstance(test, ast.UnaryOp) and isinstance(test.op, ast.Not):
         return _split_cond(test.operand, not branch)
+    if isinstance(test, ast.Compare) and len(test.ops) == 1 and type(test.ops[0]) in _POSITIVE:
+        pos = ast.copy_location(
+            ast.Compare(left=test.left, ops=[_POSITIVE[type(test.ops[0])]()], comparators=test.comparators), test)
+        return [(pos, not branch)]
     if isinstance(test, ast.BoolOp):
         if isinstance(test.op, ast.And) and branch:
             out: List[Tuple[ast.expr, bool]] = []
